@@ -211,6 +211,8 @@ func (a *Antispammer) Maintenance() {
 		}
 
 		if isMore && x < threshold {
+			// the ban is over: events counted while the source was banned must not count towards the next ban
+			x = 0
 			a.banMetric.WithLabelValues(source.name).Dec()
 			a.logger.Info("source has been unbanned", zap.Any("id", sourceID))
 		}
